@@ -398,17 +398,18 @@ def detectXMLEncoding(fp, log=None, includeDefault=True):  # noqa: C901
     # set up regular expression
     xmlDeclPattern = r"""
     ^<\?xml             # w/o BOM, xmldecl starts with <?xml at the first byte
-    .+?                 # some chars (version info), matched minimal
+    (?:(?!\?>).)+?      # some chars (version info) of the declaration itself
     encoding=           # encoding attribute begins
     ["']                # attribute start delimiter
     (?P<encstr>         # what's matched in the brackets will be named encstr
      [^"']+              # every character not delimiter (not overly exact!)
     )                   # closes the brackets pair for the named group
     ["']                # attribute end delimiter
-    .*?                 # some chars optionally (standalone decl or whitespace)
+    (?:(?!\?>).)*?      # some chars optionally (standalone decl or whitespace)
     \?>                 # xmldecl end
     """
-    xmlDeclRE = re.compile(xmlDeclPattern, re.VERBOSE)
+    # the pseudo attributes may be separated by line breaks
+    xmlDeclRE = re.compile(xmlDeclPattern, re.VERBOSE | re.DOTALL)
 
     # search and extract encoding string
     match = xmlDeclRE.search(buffer)
